@@ -625,7 +625,8 @@ Definition wobs3 (w : wworld) : list Z := wobs w ++ [wprobe w 0%nat; wprobe w 1%
 Definition tfull (es : list tev) : list Z * list Z * list Z :=
   let w := trun (release_on_remove KEnt) (release_on_remove KSolid) (release_on_remove KFace)
                 (copy_to_dest KEnt) (copy_to_dest KSolid) (copy_to_dest KFace) es in
-  (wobs3 (tE w), wobs3 (tS w), wobs3 (tF w)).
+  let lists m := List.map Z.of_nat (tlisted_of w m false) ++ [-1] ++ List.map Z.of_nat (tlisted_of w m true) ++ [-2] in
+  (wobs3 (tE w), wobs3 (tS w), wobs3 (tF w) ++ [-5] ++ lists 0%nat ++ lists 1%nat ++ lists 2%nat).
 '''
 
 
@@ -959,6 +960,13 @@ def gen_world_case(rng: random.Random, n_ev: int):
     for v in maps:
         del v.face_id.discard
     ev['T'] = tev if nest_ok else None
+    # the lists of every map as the model must have them: indexes of the top-level objects in maps[m].brushes, then -1,
+    # those in maps[m].entities, then -2
+    order: list[int] = []
+    for v in maps:
+        for lst, mark in ((v.brushes, -1), (v.entities, -2)):
+            order += [next((i + 3 for i, t in enumerate(tops) if t['obj'] is o), -7) for o in lst] + [mark]
+    exp['T_order'] = order
     return ev, exp, desc, scans
 
 
@@ -985,7 +993,7 @@ def corr_world(ck: Ck) -> None:
         for kind in WORLD_KINDS:
             cases.append((kind, ev[kind], exp[kind], desc))
         if ev['T'] is not None:
-            nested.append((ev['T'], [exp[k] for k in ('KEnt', 'KSolid', 'KFace')], desc))
+            nested.append((ev['T'], [exp[k] for k in ('KEnt', 'KSolid', 'KFace')] + [exp['T_order']], desc))
             ck.count('nested_histories')
     nk = len(WORLD_KINDS)
     ck.sample({'world_history': cases[-nk][3], 'events_per_kind': {c[0]: c[1] for c in cases[-nk:]},
@@ -1013,7 +1021,7 @@ def corr_world(ck: Ck) -> None:
     bad = []
     for lo in range(0, len(nested), 150):
         part = nested[lo:lo + 150]
-        lit = coq_list(f'({coq_list(t)}, (({coq_Z_list(e[0])}, {coq_Z_list(e[1])}), {coq_Z_list(e[2])}))' for t, e, _ in part)
+        lit = coq_list(f'({coq_list(t)}, (({coq_Z_list(e[0])}, {coq_Z_list(e[1])}), {coq_Z_list(e[2] + [-5] + e[3])}))' for t, e, _ in part)
         vals = ck.coq_eval(IMPORTS, ['bad_idx (fun c : list tev * ((list Z * list Z) * list Z) => match tfull (fst c) with (a, b, f) => '
                                      f'andb (andb (zl_eqb a (fst (fst (snd c)))) (zl_eqb b (snd (fst (snd c))))) (zl_eqb f (snd (snd c))) end) 0 {lit}'],
                            name='nested', preamble=WORLD_PRE)
@@ -1024,7 +1032,7 @@ def corr_world(ck: Ck) -> None:
         bad += [lo + i for i in parse_coq_N_list(vals[0])]
     ck.obligation('correspondence:nested', not bad,
                   f'{len(nested)} histories of bundled events on entities / brush entities / world brushes over three maps incl. the real collapse_one, '
-                  f'model trun (parts, order, desired IDs and the objects collapse_one copies decided by the model) vs the implementation: {len(bad)} disagreements')
+                  f'model trun (parts, order, desired IDs, the brush/entity lists of every map and the objects collapse_one copies decided by the model) vs the implementation: {len(bad)} disagreements')
     if bad:
         c = min((nested[i] for i in bad), key=lambda c: len(c[0]))
         ck.tie_broken.append('correspondence nested objects (SM/IdNest.v trun vs Entity/Solid/Side constructors, copy(), remove, __del__)')
